@@ -187,4 +187,52 @@ theorem refute (t : Table) (m : Mode) (w : Word) (hG : rmatch m.grammar w = true
   rw [h1, h2] at hbad
   simp at hbad
 
+theorem lang_eq_of_altNorm {a b : RE} (h : RE.beq (altNorm a) (altNorm b) = true) (w : Word) :
+    Lang a w ↔ Lang b w := by
+  have e := RE.beq_eq h
+  have ha := Lang_mkAlt a .emp w
+  have hb := Lang_mkAlt b .emp w
+  unfold altNorm at e
+  rw [e] at ha
+  constructor
+  · intro h1; rcases hb.1 (ha.2 (Or.inl h1)) with h2 | h2
+    · exact h2
+    · cases h2
+  · intro h1; rcases ha.1 (hb.2 (Or.inl h1)) with h2 | h2
+    · exact h2
+    · cases h2
+
+/-- `update_privilege_levels` hands the channel the alternation of the current table -/
+theorem detect_join (t : Table) (h : RE.beq (altNorm t.detect) (altNorm t.join) = true) (w : Word) :
+    detects t w = true ↔ ∃ l ∈ t.levels, Lang l.search w := by
+  show rmatch t.detect w = true ↔ _
+  rw [rmatch_iff, lang_eq_of_altNorm h w]
+  unfold Table.join
+  rw [Lang_alts]
+  constructor
+  · rintro ⟨r, hr, hl⟩
+    obtain ⟨l, hl', e⟩ := List.mem_map.1 hr
+    exact ⟨l, hl', e ▸ hl⟩
+  · rintro ⟨l, hl', hl⟩
+    exact ⟨l.search, List.mem_map.2 ⟨l, hl', rfl⟩, hl⟩
+
+theorem forall_modes {P : Mode → Prop} (ms : List Mode) (h : ∀ i, i < ms.length → P (nthMode ms i)) :
+    ∀ m ∈ ms, P m := by
+  intro m hm
+  have key : ∀ (l : List Mode) (m : Mode), m ∈ l → ∃ i, i < l.length ∧ nth l i = some m := by
+    intro l
+    induction l with
+    | nil => intro m hm; cases hm
+    | cons x xs ih =>
+      intro m hm
+      rcases List.mem_cons.1 hm with e | e
+      · exact ⟨0, by simp, by rw [e]; rfl⟩
+      · obtain ⟨i, hi, hn⟩ := ih m e
+        exact ⟨i + 1, by simp; omega, hn⟩
+  obtain ⟨i, hi, hn⟩ := key ms m hm
+  have := h i hi
+  unfold nthMode at this
+  rw [hn] at this
+  exact this
+
 end Scrapli.PromptClass
